@@ -112,6 +112,57 @@ def cond_np(c):
     return Af, b, Q
 
 
+def cond_mp(c):
+    """(A, b, Q) as cond_np, with every product (scalings, L L^T) formed in mp from the float arrays."""
+    k = kind(c)
+    A = onp.asarray(c.A, dtype=float)
+    tl = onp.asarray(c.to_latent, dtype=float)
+    to = onp.asarray(c.to_observed, dtype=float)
+    nm = onp.asarray(c.noise.mean_flat, dtype=float)
+    nL = onp.asarray(c.noise.cholesky_flat, dtype=float)
+    f = lambda x: mp.mpf(float(x))
+
+    def block(A_, to_, tl_, nL_):
+        no, ni = A_.shape
+        Am = mp.matrix(no, ni)
+        for a in range(no):
+            for b_ in range(ni):
+                Am[a, b_] = f(to_[a]) * f(A_[a, b_]) * f(tl_[b_])
+        Lm = mp.matrix(no, nL_.shape[1])
+        for a in range(no):
+            for b_ in range(nL_.shape[1]):
+                Lm[a, b_] = f(to_[a]) * f(nL_[a, b_])
+        return Am, Lm * Lm.T
+
+    if k == "dense":
+        Am, Q = block(A, to, tl, nL)
+        return Am, mp.matrix([f(t) * f(x) for t, x in zip(to, nm)]), Q
+    if k == "isotropic":
+        d = nm.shape[1]
+        Ab, Qb = block(A, to, tl, nL)
+        no, ni = A.shape
+        Af, Q, b = mp.zeros(no * d, ni * d), mp.zeros(no * d), mp.zeros(no * d, 1)
+        for i in range(d):
+            for a in range(no):
+                b[a * d + i] = f(to[a]) * f(nm[a, i])
+                for c_ in range(ni):
+                    Af[a * d + i, c_ * d + i] = Ab[a, c_]
+                for c_ in range(no):
+                    Q[a * d + i, c_ * d + i] = Qb[a, c_]
+        return Af, b, Q
+    d, no, ni = A.shape
+    Af, Q, b = mp.zeros(no * d, ni * d), mp.zeros(no * d), mp.zeros(no * d, 1)
+    for i in range(d):
+        Ab, Qb = block(A[i], to[i], tl[i], nL[i])
+        for a in range(no):
+            b[a * d + i] = f(to[i][a]) * f(nm[i][a])
+            for c_ in range(ni):
+                Af[a * d + i, c_ * d + i] = Ab[a, c_]
+            for c_ in range(no):
+                Q[a * d + i, c_ * d + i] = Qb[a, c_]
+    return Af, b, Q
+
+
 def index_tree(x, i):
     import jax.tree_util as tu
 
